@@ -481,6 +481,25 @@ func c04Scenario(c *Ctx, idx int, r *Rng) (mlines, mimpl, mcase []string) {
 			c.R.Count("mutation.directory-removed")
 		}
 	}
+	// a server that answers the download of one object with neither an action nor an error: the object cannot be
+	// had, so a fetch or pull that needs it must not end as a success (D83)
+	noActionSet := false
+	if (cmdKind == "fetch" || cmdKind == "pull" || cmdKind == "fetch-all") && r.Chance(10) {
+		for _, f := range files {
+			if len(f.content) > 0 && !objPresent(f.oid) {
+				srv.mu.Lock()
+				if srv.noAction == nil {
+					srv.noAction = map[string]bool{}
+				}
+				srv.noAction[f.oid] = true
+				srv.mu.Unlock()
+				noActionSet = true
+				log("the server answers the download of %s (%s) without an action", f.path, f.oid[:8])
+				c.R.Count("server.download-without-action")
+				break
+			}
+		}
+	}
 	// ---- the command
 	var args []string
 	var coArgs []c04Pat
@@ -548,7 +567,7 @@ func c04Scenario(c *Ctx, idx int, r *Rng) (mlines, mimpl, mcase []string) {
 	}
 	c.R.Count("cmd." + cmdKind)
 	c.R.Eval(cas(), true)
-	if ccode != 0 {
+	if ccode != 0 && !noActionSet {
 		fail("the command failed although the server holds every object and local storage was intact", clip(cout, 400))
 	}
 	// ---- judgement per path
